@@ -1,7 +1,7 @@
 (* C01 — totality and soundness of the datatype validation model *)
 From Coq Require Import ZArith NArith Bool List Lia.
 Import ListNotations.
-Require Import FV.Base.Util FV.Base.F64 FV.Base.F64Lemmas FV.Base.PyVal FV.C01.Model.
+Require Import FV.Base.Util FV.Base.F64 FV.Base.F64Lemmas FV.Base.F64Repr FV.Base.PyVal FV.C01.Model.
 
 (* ------------------------------------------------------------------ nested induction on datatype trees *)
 Section DtypeInd.
@@ -135,24 +135,16 @@ Proof.
   destruct (py_len v); [|reflexivity]. destruct (Z.eqb _ _); reflexivity.
 Qed.
 
-(* nan / inf / an overflowing quotient are answered with RangeError since the repair.  What remains is the
-   int * float product after round(): CPython would raise OverflowError if the rounded quotient did not fit a float.
-   It always fits (it is the nearest integer of a finite binary64 number); this representability fact is not proved
-   here and stays as an explicit, computable guard. *)
-Definition scaled_call_guard (scale : f64) (v : pyval) : bool :=
-  match py_add0 v with
-  | Ok f => match py_round (fdiv f scale) with
-            | Ok k => match float_of_Z k with Some _ => true | None => false end
-            | Err _ => true
-            end
-  | Err _ => true
-  end.
-
-Lemma scaled_call_okbad scale v : scaled_call_guard scale v = true -> okbad (scaled_call scale v) = true.
+(* nan / inf / an overflowing quotient are answered with RangeError since the repair; the int * float product
+   after round() can not overflow because the rounded quotient of a finite binary64 number is representable
+   (Base/F64Repr.v, fround_representable) *)
+Lemma scaled_call_okbad scale v : okbad (scaled_call scale v) = true.
 Proof.
-  unfold scaled_call_guard, scaled_call. destruct (py_add0 v) as [f|e]; [|reflexivity]. cbn [wrap_wrong].
-  destruct (py_round (fdiv f scale)) as [k|e]; [|reflexivity]. unfold py_int_mul_float.
-  destruct (float_of_Z k); intros; [reflexivity|discriminate].
+  unfold scaled_call. destruct (py_add0 v) as [f|e]; [|reflexivity]. cbn [wrap_wrong].
+  unfold py_round. destruct (fis_nan (fdiv f scale)) eqn:En; [reflexivity|].
+  destruct (fis_inf (fdiv f scale)) eqn:Ei; [reflexivity|].
+  assert (Fq : fis_finite (fdiv f scale) = true) by (destruct (fdiv f scale); cbn in *; congruence).
+  destruct (fround_representable _ Fq) as [zf Hz]. unfold py_int_mul_float. rewrite Hz. reflexivity.
 Qed.
 
 Lemma scaled_call_float scale v r : scaled_call scale v = Ok r -> exists f, r = PFloat f.
@@ -162,17 +154,12 @@ Proof.
   destruct (py_int_mul_float k scale); cbn; intros H; inversion H; eauto.
 Qed.
 
-Definition scaled_validate_guard (scale mn mx : f64) (v : pyval) : bool :=
-  scaled_call_guard scale v && scaled_call_guard scale (PFloat mn) && scaled_call_guard scale (PFloat mx).
-
-Lemma scaled_validate_okbad scale mn mx v :
-  scaled_validate_guard scale mn mx v = true -> okbad (scaled_validate scale mn mx v) = true.
+Lemma scaled_validate_okbad scale mn mx v : okbad (scaled_validate scale mn mx v) = true.
 Proof.
-  unfold scaled_validate_guard, scaled_validate. intros G.
-  apply andb_prop in G. destruct G as [G G3]. apply andb_prop in G. destruct G as [G1 G2].
-  pose proof (scaled_call_okbad scale v G1) as H1. pose proof (scaled_call_float scale v) as F1.
-  pose proof (scaled_call_okbad scale _ G2) as H2. pose proof (scaled_call_float scale (PFloat mn)) as F2.
-  pose proof (scaled_call_okbad scale _ G3) as H3. pose proof (scaled_call_float scale (PFloat mx)) as F3.
+  unfold scaled_validate.
+  pose proof (scaled_call_okbad scale v) as H1. pose proof (scaled_call_float scale v) as F1.
+  pose proof (scaled_call_okbad scale (PFloat mn)) as H2. pose proof (scaled_call_float scale (PFloat mn)) as F2.
+  pose proof (scaled_call_okbad scale (PFloat mx)) as H3. pose proof (scaled_call_float scale (PFloat mx)) as F3.
   destruct (scaled_call scale v) as [x|e]; [|exact H1]. destruct (F1 x eq_refl) as [r ->].
   destruct (f_lt_num (fsub mn scale) v && num_lt_f v (fadd mx scale)); [|reflexivity].
   destruct (scaled_call scale (PFloat mn)) as [x|e]; [destruct (F2 x eq_refl) as [lo ->]|exact H2].
@@ -180,11 +167,10 @@ Proof.
   reflexivity.
 Qed.
 
-(* the only remaining top-level preconditions: the representability guard above, and for a struct that the value
-   currently held (previous) is None/empty or a dict, as it always is for a parameter of that type *)
+(* the only remaining precondition: for a struct, the value currently held (previous) is None/empty or a dict, as
+   it always is for a parameter of that type *)
 Definition validate_guard (d : dtype) (v prev : pyval) : bool :=
   match d with
-  | TScaled scale mn mx => scaled_validate_guard scale mn mx v
   | TStruct _ _ _ => negb (py_truthy prev) || is_dict prev
   | _ => true
   end.
@@ -210,7 +196,7 @@ Proof.
   destruct d as [| | | | | | | | |members optional client]; cbn [dt_validate validate_guard]; intros G.
   - apply float_validate_okbad.
   - apply int_validate_okbad.
-  - apply scaled_validate_okbad, G.
+  - apply scaled_validate_okbad.
   - apply bool_call_okbad.
   - apply enum_call_okbad.
   - apply string_call_okbad.
